@@ -90,6 +90,22 @@ def install(mods):
      tmpfiles, smtlib) = mods
     mon = set(CONFIG.get('monitors', []))
 
+    # ---- fault injection into the check of single candidates (C04: an
+    # environmental failure while one candidate is written or run - disk
+    # full, the copied command vanished - costs that candidate only)
+    if CONFIG.get('break_check'):
+        bc = CONFIG['break_check']
+        orig_check_exprs_f = checker.check_exprs
+
+        def check_exprs_faulty(exprs):
+            h = int(leaf_digest(exprs), 16) ^ (bc.get('seed', 0) * 2654435761)
+            if (h % 1000) < bc.get('per_mille', 100):
+                emit('injected_check_fault', ld=leaf_digest(exprs))
+                raise OSError(28, 'No space left on device (injected)')
+            return orig_check_exprs_f(exprs)
+
+        checker.check_exprs = check_exprs_faulty
+
     # ---- checker.check_exprs / execute
     if 'check' in mon:
         orig_check_exprs = checker.check_exprs
